@@ -147,6 +147,12 @@ def oracle_expm(case, R):
     illcond = singular or (sv.max() / sv.min() > 100.0)
     f11 = illcond and nrmAh > THETAS[3]
     tag = "[pade13-illcond] " if f11 else ""
+    # F40 domain: strongly non-normal A (condition number of the exponential far above its norm) with a large
+    # norm: the classic scaling-and-squaring of expmint over-scales (no Al-Mohy/Higham norm estimates) and
+    # loses accuracy far beyond eps*kappa_exp; scipy.linalg.expm is itself 1e3 eps*kappa_exp off there
+    f40 = nrmAh > 50.0 and kexp > 1e3 * kappa
+    if f40:
+        R.label("F40-domain")
     info = f"{tag}kind={case['kind']} n={n} ||Ah||1={nrmAh:.4g} h={h:.3g}"
 
     def cmp(got, ref, tol, scale, kind):
@@ -160,7 +166,8 @@ def oracle_expm(case, R):
         if not (f11 and ("I2" in kind or "_i2" in kind)):
             R.metric(kind + "/tol", e / tol)
             R.metric(kind + "/eps_kappa_scale", e / (util.EPS * kappa * scale))
-        R.check(e <= tol, kind, f"{info} err={e:.3e} tol={tol:.3e} scipy_err={err_s:.2e}")
+        t40 = "[nonnormal-overscaling] " if (f40 and tol < e <= 10 * tol) else ""
+        R.check(e <= tol, kind, f"{t40}{info} err={e:.3e} tol={tol:.3e} scipy_err={err_s:.2e}")
 
     with warnings.catch_warnings(record=True) as wl:
         warnings.simplefilter("always")
@@ -250,7 +257,13 @@ def KNOWN_F11(case, kind, detail):
         "expmint_I2", "expmint_I2_runtimeerror", "getEPQ1_P_i2", "getEPQ1_Q_i2", "getEPQ1_runtimeerror")
 
 
-KNOWN = {"F11": KNOWN_F11}
+def KNOWN_F40(case, kind, detail):
+    """accuracy failures (never exceptions, never shape errors) within 10x the tolerance - i.e. within 100x the
+    error of scipy.linalg.expm on the same input - on strongly non-normal matrices with ||Ah||_1 > 50"""
+    return "[nonnormal-overscaling]" in detail and not kind.startswith("exc:")
+
+
+KNOWN = {"F11": KNOWN_F11, "F40": KNOWN_F40}
 
 
 @st.composite
